@@ -266,6 +266,41 @@ APPEND(skip_lane_copy_,i):
                                 %%TMP_XMM_12, %%TMP_XMM_13, %%TMP_XMM_14, \
                                 %%TMP_XMM_15, state
 
+%ifdef SAFE_DATA
+        ;; LFSR and FSM registers are not needed past initialization
+        ;; (the 5 keystream words of each lane are in KS) - clear them
+        pxor    %%TMP_XMM_0, %%TMP_XMM_0
+%assign i 0
+%rep 16
+        movdqa  [state + _snow3g_args_LFSR_0 + i*64], %%TMP_XMM_0
+%assign i (i+1)
+%endrep
+        movdqa  [state + _snow3g_args_FSM_1], %%TMP_XMM_0
+        movdqa  [state + _snow3g_args_FSM_2], %%TMP_XMM_0
+        movdqa  [state + _snow3g_args_FSM_3], %%TMP_XMM_0
+
+        ;; clear key stream stack frame
+        movdqa  [rsp + _keystream + 0 * 16], %%TMP_XMM_0
+        movdqa  [rsp + _keystream + 1 * 16], %%TMP_XMM_0
+        movdqa  [rsp + _keystream + 2 * 16], %%TMP_XMM_0
+        movdqa  [rsp + _keystream + 3 * 16], %%TMP_XMM_0
+
+        ;; empty lanes were initialized with a copy of a valid job
+        ;; - clear their keystream, it is never used nor cleared later
+        xor     DWORD(%%TGP0), DWORD(%%TGP0)
+%%clear_null_lane_ks:
+        bt      WORD(init_lanes), WORD(%%TGP0)
+        jc      %%skip_clear_null_lane_ks
+        mov     DWORD(%%TGP1), DWORD(%%TGP0)
+        shl     DWORD(%%TGP1), 5 ;; ks stored at 32 byte offsets
+        movdqa  [state + _snow3g_ks + %%TGP1], %%TMP_XMM_0
+        movdqa  [state + _snow3g_ks + 16 + %%TGP1], %%TMP_XMM_0
+%%skip_clear_null_lane_ks:
+        inc     DWORD(%%TGP0)
+        cmp     DWORD(%%TGP0), 4
+        jb      %%clear_null_lane_ks
+%endif
+
         ;; update init_done for valid initialized lanes
         mov     [state + _snow3g_init_done], WORD(init_lanes)
         bsf     WORD(%%LANE), WORD(init_lanes)
